@@ -15,6 +15,11 @@
     skipped): parse → expose the parsed families → parse again gives the same families (values numerically, timestamps by
     denoted value).
 
+Two further dimensions (shared with C03, see there): any application-supplied string of a spec may be `{'sub': kind, 's': data}`,
+an instance of a `str` subclass whose `__str__`/`__format__`/`__repr__` differ from its character data (label values, `le`, Info
+values, states, exemplar label values, help; label / metric names where the exposition quotes them) — the reference is the
+character data of the collected string; and `spec['created']`, the created-series switch in effect at scrape time.
+
 Every failure is minimised (families, samples, then every string replaced by a benign one / every optional part dropped while
 the failure persists) and classified into exactly one signature:
     (repaired in /repo: bc8d08a, 7b52129, 64745db — ordinary failure classes now; reverting a fix brings them back)
@@ -149,7 +154,7 @@ def build_raw(f):
 def build(spec):
     from prometheus_client import CollectorRegistry
     reg = CollectorRegistry()
-    for f in spec['families']:
+    for f in c03.realise(spec['families']):
         src = f['src']
         if src.startswith('class:'):
             build_class(reg, f)
@@ -409,18 +414,36 @@ def ref_exemplar_labels(labels):
     return '{' + ','.join(items) + '}'
 
 
+def plain_metrics(metrics):
+    """the collected families with every application string (also those of exemplars) reduced to its character data — the
+    reference of the round trip"""
+    out = []
+    for m in c03.plain_metrics(metrics):
+        if any(s.exemplar is not None and any(type(v) is not str or type(k) is not str for k, v in s.exemplar.labels.items())
+               for s in m.samples):
+            import copy
+            m2 = copy.copy(m)
+            m2.samples = [s if s.exemplar is None else s._replace(exemplar=s.exemplar._replace(
+                labels={c03.chardata(k): c03.chardata(v) for k, v in s.exemplar.labels.items()})) for s in m.samples]
+            m = m2
+        out.append(m)
+    return out
+
+
 def evaluate(spec):
     """build, collect, filter, expose, parse, judge.  Pure.  -> dict"""
     from prometheus_client.openmetrics import exposition as OE
     from prometheus_client import validation as V
     legacy = bool(spec['legacy'])
     c14om.set_legacy(legacy)
+    sw = c03.created_switch(spec.get('created'))
+    sw.__enter__()
     try:
         try:
             reg = build(spec)
         except (ValueError, TypeError, KeyError, IndexError, AttributeError, OverflowError) as e:
             return {'skip': 'build-' + type(e).__name__}
-        metrics = list(reg.collect())
+        metrics = plain_metrics(reg.collect())
         for m in metrics:
             for smp in m.samples:
                 try:
@@ -438,6 +461,7 @@ def evaluate(spec):
             return {'metrics': metrics, 'text': None, 'outcome': None,
                     'fail': ('expose-raises-' + type(e).__name__, 'generate_latest raised %s: %s' % (type(e).__name__, str(e)[:200]))}
     finally:
+        sw.__exit__()
         c14om.set_legacy(False)
     outcome = real_parse_fams(text, legacy)
     c14om.set_legacy(False)
@@ -915,7 +939,21 @@ def gen_registry(rng, legacy, note):
             fams.append(f)
         else:
             fams.append(gen_raw_family(rng, legacy, idx, note))
-    return {'kind': 'registry', 'legacy': legacy, 'families': fams}
+    spec = {'kind': 'registry', 'legacy': legacy, 'families': fams}
+    trng = TYPED_RNG[0]                  # the two added dimensions draw from their own stream (derived from the run's seed)
+    r = trng.random()
+    if r < 0.2:
+        spec['created'] = False          # created series switched off at scrape time (custom collectors still yield them)
+    elif r < 0.25:
+        spec['created'] = True
+    note('created-switch:%s' % spec.get('created', 'default'))
+    if trng.random() < 0.3:
+        c03.wrap_strings(trng, spec, note)
+    return spec
+
+
+import random as _random
+TYPED_RNG = [_random.Random(0)]
 
 
 ONE = {'b': lib.bits_of(1.0)}
@@ -923,6 +961,23 @@ ONE = {'b': lib.bits_of(1.0)}
 
 def corpus_specs():
     out = []
+    # str-subclass instances in every string position / the created-series switch (the C03 corpus, custom-collector part)
+    for tag, spec in c03.typed_corpus_specs():
+        if all(not f['src'].startswith('class:') for f in spec['families']):
+            out.append((tag, spec))
+    for legacy in (True, False):
+        for kind in c03.SUB_KINDS:
+            S = lambda d: {'sub': kind, 's': d}
+            out.append(('corpus:str-subclass', {'kind': 'registry', 'legacy': legacy, 'families': [
+                {'src': 'class:Info', 'name': 'build', 'help': S('Build'), 'labelnames': ['l'], 'children': [
+                    {'lv': [S('x')], 'ops': [{'info': [['version', S('v1')], ['note', S('a"b')]]}]}]},
+                {'src': 'class:Counter', 'name': 'hits', 'help': S('a\\nb'), 'labelnames': ['l'], 'children': [
+                    {'lv': [S('GET')], 'ops': [{'v': ONE, 'ex': [['trace', S('abc123')]]}]}]},
+                {'src': 'raw', 'name': 'lat', 'help': S('200'), 'type': 'histogram', 'unit': '', 'samples': [
+                    {'name': 'lat_bucket', 'labels': [['le', S('+Inf')], ['m', S('GET')]], 'value': ONE, 'ts': None,
+                     'ex': {'labels': [['id', S('x9')]], 'value': ONE, 'ts': None}},
+                    {'name': 'lat_count', 'labels': [['m', S('GET')]], 'value': ONE, 'ts': None},
+                    {'name': 'lat_sum', 'labels': [['m', S('GET')]], 'value': ONE, 'ts': None}]}]}))
     for legacy in (False, True):
         R = lambda fams: {'kind': 'registry', 'legacy': legacy, 'families': fams}
         C = lambda name, ops, unit='': {'src': 'class:Counter', 'name': name, 'help': 'h', 'labelnames': [], 'unit': unit,
@@ -1399,7 +1454,7 @@ def compact(case):
     fams = []
     for f in case['families']:
         fams.append({k: v for k, v in f.items() if v not in ([], '', None)})
-    return 'legacy=%s %s' % (case['legacy'], fams)
+    return 'legacy=%s%s %s' % (case['legacy'], ' created-series-switch=%s' % case['created'] if 'created' in case else '', fams)
 
 
 NUMTOK = re.compile(r'[0-9e.+\-InfNa]+')
@@ -1453,6 +1508,7 @@ def run(ctx):
         n_docs *= 3
         budget *= 2
     R = Runner(ctx)
+    TYPED_RNG[0] = _random.Random('c04-typed:%s' % ctx.seed)
     try:
         for stream, spec in corpus_specs():
             R.run_spec(stream, spec)
@@ -1537,6 +1593,8 @@ def replay(ctx, case):
                 print('REPLAY verdict: %s' % (res.get('fail') or res.get('skip') or 'parse → expose → parse reproduces the families',))
         elif 'families' in c:
             spec = {'kind': 'registry', 'legacy': bool(c['legacy']), 'families': c['families']}
+            if 'created' in c:
+                spec['created'] = c['created']
             print('REPLAY registry', compact(spec))
             res = R.run_spec('replay', spec)
             if 'skip' in res:
